@@ -1560,6 +1560,30 @@ impl<'a> Machine<'a> {
         }
     }
 
+    /// the host evaluates an Ink function between turns: its value and the text it printed;
+    /// the story's own pending output is left alone
+    pub fn eval_function(&mut self, f: &str, args: &[Val]) -> R<(Val, String)> {
+        let saved = std::mem::take(&mut self.out);
+        let exprs: Vec<Expr> = args
+            .iter()
+            .map(|v| match v {
+                Val::I(i) => Expr::int(*i),
+                Val::B(b) => Expr::Lit(Lit::Bool(*b)),
+                Val::S(s) => Expr::Lit(Lit::Str(s.clone())),
+                _ => Expr::int(0),
+            })
+            .collect();
+        let r = self.call_function(f, &exprs);
+        let (lines, rest, _) = self.read_lines();
+        let mut text = String::new();
+        for l in lines {
+            text.push_str(&l.text);
+        }
+        text.push_str(&rest);
+        self.out = saved;
+        r.map(|v| (v, text))
+    }
+
     /// the player picks the i-th visible choice
     pub fn choose(&mut self, i: usize) -> R<()> {
         let vis: Vec<usize> = (0..self.pending.len()).filter(|k| !self.pending[*k].invisible).collect();
